@@ -2,5 +2,6 @@
 mod common;
 use libfuzzer_sys::fuzz_target;
 fuzz_target!(|data: &[u8]| {
-    common::drive("C13", data, gpa_verif::props::c13::pure_strategy(), gpa_verif::props::c13::eval_pure);
+    let mut w = common::Words::new(data);
+    common::judge("C13", gpa_verif::props::c13::pure_from_words(&mut w), gpa_verif::props::c13::eval_pure);
 });
